@@ -152,8 +152,22 @@ class Builder(object):
             return (f * c) if self.flip else (c * f)
         if t == "neg":
             return -self.build(e["f"])
-        l = self.build(e["l"])
-        r = self.build(e["r"])
+        # a zero-order atom c/1 is the number (or Stream) c: half of the routes hand the library the bare value,
+        # which goes through the number/Stream branch of ZFilter.__add__/__sub__/__mul__ and their reflected forms
+        def bare(x):
+            return (x["t"] == "flt" and len(x["b"]) == 1 and len(x["a"]) == 1 and x["a"][0]["k"] == "c"
+                    and x["a"][0]["v"] == [1, 1] or
+                    x["t"] == "flt" and len(x["b"]) == 1 and len(x["a"]) == 1 and x["a"][0]["k"] == "c"
+                    and tuple(x["a"][0]["v"]) == (1, 1))
+        if self.flip and bare(e["r"]) and not bare(e["l"]):
+            l = self.build(e["l"])
+            r = self.coef(e["r"]["b"][0])
+        elif self.flip and bare(e["l"]) and not bare(e["r"]):
+            l = self.coef(e["l"]["b"][0])
+            r = self.build(e["r"])
+        else:
+            l = self.build(e["l"])
+            r = self.build(e["r"])
         if t == "add":
             return l + r
         if t == "sub":
